@@ -199,5 +199,5 @@ func matrixHarness(lo, hi int) {
 	vrt.Reach("end")
 }
 
-// C04Matrix: all 35 destination types.
-func C04Matrix() { matrixHarness(0, 35) }
+// C04Matrix: all 43 destination types.
+func C04Matrix() { matrixHarness(0, 43) }
